@@ -153,4 +153,47 @@ PROPS['C19'].update({
     'level_note': 'Input abstracted as (length, duplicate-freeness, disjointness, row count, uniform row length); builtins assumed.',
 })
 
+REL = 'relative to LatInv (established by Lattice.__init__/_fromlist: see C03/C05/C06/C10, bounded there)'
+PROPS['C02'].update({
+    'units': ['contexts.getitem', 'lattices.__call__', 'lattices.__getitem__.int', 'lattices.__getitem__.empty', 'lattices.__getitem__.labels',
+              'matrices.doubleprime', 'matrices.prime'] + GALOIS,
+    'level': 'proof',
+    'proved_part': 'Context.__getitem__ = (Cl(A),Up(A)) / (Dn(B),Cl\'(B)) in raw and label form; closure laws (extensive, monotone, idempotent, least) '
+                   'as z3 lemmas; Lattice.__call__/__getitem__ return the member object with that extent, lattice[i] the i-th member, lattice[()] the top, ' + REL,
+    'bounded_part': 'replay / counterexample finder; LatInv establishment; bitsets contracts',
+    'technique': 'contract-based deductive verification of the lookups + z3-proved closure lemmas, VCs from the real AST',
+    'level_text': 'Every function on the lookup path is under contract and every obligation is discharged for all contexts and queries; '
+                  'lattice lookups are proved relative to the lattice invariant.',
+    'level_note': 'Assumes CtxInv, LatInv (bounded elsewhere), the bitsets contracts frommembers/members, and the BITS axioms.',
+})
+PROPS['C07'].update({
+    'units': ['members.join', 'members.meet', 'lattices.join', 'lattices.meet', 'matrices.double', 'lemma.meet_closed.O'] + GALOIS,
+    'level': 'proof',
+    'proved_part': 'binary and n-ary join/meet return the member whose extent is the closure of the union / the intersection of the extents; '
+                   'empty join = infimum, empty meet = supremum; intersection of extents is an extent; closure is least (lub/glb) -- ' + REL,
+    'bounded_part': 'algebraic laws and operator aliases on enumerated lattices; bitsets reduce_or/reduce_and; replay',
+    'technique': 'contract-based deductive verification of binary and n-ary join/meet relative to the lattice invariant, z3 lemma instances',
+    'level_text': 'All four functions are proved for all lattices satisfying LatInv and all (finite) collections of concepts.',
+    'level_note': 'Assumes LatInv.1/2/4 and the fold contracts of bitsets reduce_or/reduce_and.',
+})
+PROPS['C09']['units'] = ['common.iterunion', 'members.upset', 'members.downset', 'lattices.upset_union', 'lattices.downset_union']
+PROPS['C09']['proved_part'] += '; the four wrappers pass the right seeds, rank key and neighbour getter (and the reduced collection from tools.maximal)'
+PROPS['C09']['bounded_part'] = 'tools.maximal (itertools branch), the precondition of iterunion from LatInv.2/3/5 + L-SLEX, replay'
+PROPS['C18'].update({
+    'units': ['contexts.minimize', 'contexts._minimal', 'members.minimal', 'members.attributes', 'members.infimum_minimal', 'matrices.prime'],
+    'level': 'proof',
+    'proved_part': '_minimize is exactly the filter of intent.powerset() by Dn(S) = extent (just the intent for an empty extent); _minimal its first '
+                   'element; Concept.attributes/minimal are the label forms; Infimum.minimal the full intent',
+    'bounded_part': 'powerset() order and exhaustiveness (bitsets contract), replay',
+    'technique': 'contract-based deductive verification of the generator (yields clause) and its wrappers against the powerset library contract',
+    'level_text': 'All functions of the property are under contract with all obligations discharged, relative to the stated library contract.',
+    'level_note': 'powerset() (every subset once, shortlex order) and members() are assumed bitsets contracts, run-time checked on the bounded side.',
+})
+PROPS['C20'].update({
+    'units': ['visualize.lattice', 'lattices.graphviz'],
+    'level': 'proof',
+    'level_text': 'The Graphviz call trace is proved for all lattices satisfying LatInv: node per concept, label edges exactly when labelled, one edge per lower cover.',
+    'level_note': 'graphviz.Digraph rendering one statement per call is an assumed external contract (parsed back on the bounded side); LatInv assumed.',
+})
+
 NOT_APPLICABLE = {}
